@@ -409,7 +409,7 @@ func genScripts(seed uint64, tier string, tries int) []script {
 		out = append(out, genSeqExhaustive("seq-exh-cold1x1-hot1x1-then-healthy", []int{1}, []int{1}, 2, r)...)
 	}
 	nback := 18
-	nrand := 3100
+	nrand := 2800
 	nseq := 150
 	if tier == "thorough" {
 		nback = 300
